@@ -75,7 +75,7 @@ def DateTime.fromNode (fp : FloatParse) (node : XNode) : Option (Option DateTime
     let gps ← fp.f64 text
     match node.children.find? (fun n => n.hasTagName "isAtomicClockReferenced" && n.attr "type" == some "Integer") with
     | none => pure none
-    | some an => pure (some ⟨gps, rustTrim ((an.textOf).getD "0") == "1"⟩)
+    | some an => pure (some ⟨gps, parseI64 (rustTrim ((an.textOf).getD "0")) == some 1⟩)
 
 def optDateTime (fp : FloatParse) (parent : XNode) (tag : String) : Option (Option DateTime) := do
   match ← typedChild parent tag "Structure" with
@@ -323,6 +323,7 @@ def rootFromDocument (fp : FloatParse) (d : XDoc) : Option RootRead := do
 
 /-- `Extension::vec_from_document` -/
 def extensionsFromDocument (d : XDoc) : List (String × String) :=
-  d.rootNamespaces.filterMap (fun (p, uri) => p.map (fun name => (name, uri)))
+  d.rootNamespaces.filterMap (fun (p, uri) =>
+    if uri == e57Namespace then none else p.map (fun name => (name, uri)))
 
 end E57
